@@ -272,6 +272,47 @@ func (cs *clientState) isMultiInProgress() bool {
 	return cs.multiInProgress
 }
 
+// The watch table, the name and the protocol version belong to the connection, but
+// CLIENT LIST running on another connection reads them: updates and foreign reads take cs.mu.
+func (cs *clientState) resetWatches() {
+	cs.mu.Lock()
+	defer cs.mu.Unlock()
+	cs.watches = map[watchKey]uint64{}
+}
+
+func (cs *clientState) addWatch(wk watchKey, id uint64) {
+	cs.mu.Lock()
+	defer cs.mu.Unlock()
+	if _, alreadyWatched := cs.watches[wk]; alreadyWatched {
+		// keep the version seen by the first WATCH: watching a key again must not
+		// forget a modification that happened in between
+		return
+	}
+	cs.watches[wk] = id
+}
+
+func (cs *clientState) copyWatches() map[watchKey]uint64 {
+	cs.mu.Lock()
+	defer cs.mu.Unlock()
+	watches := make(map[watchKey]uint64, len(cs.watches))
+	for wk, id := range cs.watches {
+		watches[wk] = id
+	}
+	return watches
+}
+
+func (cs *clientState) setName(name string) {
+	cs.mu.Lock()
+	defer cs.mu.Unlock()
+	cs.name = name
+}
+
+func (cs *clientState) setRespVersion(version int) {
+	cs.mu.Lock()
+	defer cs.mu.Unlock()
+	cs.respVersion = version
+}
+
 func (cs *clientState) selectDb(index int, create bool) (priorSelection int, valid bool) {
 	cs.mu.Lock()
 	defer cs.mu.Unlock()
